@@ -352,11 +352,24 @@ def run_incarnation(sc, broker, inc, t0, crash_at, pending_msgs):
         if sc.get('user_auto_commit') is not None:
             # a configuration shared with other Kafka clients: the source must still do its own checkpointing
             params['enable.auto.commit'] = sc['user_auto_commit']
-        stream = Stream.from_kafka_batched('t', params, poll_interval=sc['poll'], npartitions=sc.get('npartitions'),
-                                           refresh_partitions=sc.get('refresh', False),
-                                           max_batch_size=sc['max_batch'], keys=sc.get('keys', False),
-                                           asynchronous=True, loop=tl)
-        source = stream.upstreams[0]
+        if sc.get('dask'):
+            # from_kafka_batched(dask=True): the batches are fetched by tasks on the (fake) cluster; the user gathers
+            from . import fakedask
+            fakedask.install(fakedask.FakeClient(lp, rec, sc['dask']))
+            stream = Stream.from_kafka_batched('t', params, poll_interval=sc['poll'], npartitions=sc.get('npartitions'),
+                                               refresh_partitions=sc.get('refresh', False),
+                                               max_batch_size=sc['max_batch'], keys=sc.get('keys', False),
+                                               asynchronous=True, dask=True)
+            source = stream
+            while type(source).__name__ != 'FromKafkaBatched':
+                keep.append(source)
+                source = source.upstreams[0]
+        else:
+            stream = Stream.from_kafka_batched('t', params, poll_interval=sc['poll'], npartitions=sc.get('npartitions'),
+                                               refresh_partitions=sc.get('refresh', False),
+                                               max_batch_size=sc['max_batch'], keys=sc.get('keys', False),
+                                               asynchronous=True, loop=tl)
+            source = stream.upstreams[0]
         keep.extend([stream, source])
         # observe what the source emits: (partition, low, high) + give the batch's ref its identity
         orig_emit = source._emit
@@ -438,6 +451,9 @@ def run_incarnation(sc, broker, inc, t0, crash_at, pending_msgs):
         simloop.dispose_loop(lp)
         from .pipeline import _reset_streamz
         _reset_streamz()
+        if sc.get('dask'):
+            from . import fakedask
+            fakedask.uninstall()
         streamz.sources.RefCounter = base_ref
         for k, v in saved_time.items():
             setattr(streamz.sources, k, v)
@@ -583,8 +599,8 @@ def judge(sc, incs, broker):
         ins0 = an.ins.get(0, [])
         from .fns import freeze
         for k, i0 in enumerate(ins0):
-            if k >= len(emits):
-                break
+            if k >= len(emits) or sc.get('dask'):
+                break          # (with dask=True the source node hands on futures; the batches are judged at the sinks below)
             p, lo, hi = emits[k][3], emits[k][4], emits[k][5]
             real = [j for j in range(lo, hi + 1) if (p, j) not in broker.holes]
             exp = [broker.logs[p][j][1] for j in real]
@@ -609,6 +625,36 @@ def judge(sc, incs, broker):
             V.append(Violation('C09', 'C09.early_commit', v.seq,
                                'incarnation %d: %s' % (i, v.detail.replace('completion callback', 'commit callback')), **v.info))
             return V
+        # O2': whatever holds or does not hold references - at the moment an offset is committed, every consumer has
+        #      finished handling every message of the batch that ends there
+        def contains(v, msg):
+            if isinstance(v, (tuple, list)):
+                return any(contains(x, msg) for x in v)
+            return v == msg
+        sink_ids = [n['id'] for n in sc['graph'] if n['op'] == 'sink']
+        # (below flatten the batch's counter travels with its last message only: not judged there)
+        # (a Dask pipeline whose sink takes the futures themselves, no gather above it, has "handled" a batch when it
+        #  has been given the future: the message text never reaches it, nothing to compare)
+        if len(sink_ids) == 1 and not any(n['op'] == 'flatten' for n in sc['graph']) \
+                and (not sc.get('dask') or any(n['op'] == 'gather' for n in sc['graph'])) \
+                and not any(r['fired'].get('fetch_fail') for r in incs):
+            done = [(a.end, a.value) for a in an.acts if a.node == sink_ids[0] and a.end is not None and a.ok]
+            for e in ev:
+                if e[2] != 'commit_call':
+                    continue
+                b = [x for x in emits if x[3] == e[3] and x[5] + 1 == e[4]]
+                if not b:
+                    continue
+                lo_, hi_ = b[0][4], b[0][5]
+                for j in range(lo_, hi_ + 1):
+                    if (e[3], j) in broker.holes:
+                        continue
+                    msg = broker.logs[e[3]][j][1]
+                    if not any(sq < e[0] and contains(v, msg) for sq, v in done):
+                        V.append(Violation('C09', 'C09.early_commit', e[0],
+                                           'incarnation %d: offset %d of partition %d was committed before the consumer had finished '
+                                           'handling message %r of that batch' % (i, e[4], e[3], msg), node_op='from_kafka_batched'))
+                        return V
         # commit value: offset committed for a batch is its high + 1
         batches = {(_e[3], _e[5] + 1) for _e in emits}
         for e in ev:
@@ -815,8 +861,16 @@ def generate(prop, rng, seed, index, tier):
     elif shape == 'timed_window':
         graph.append({'id': 1, 'op': 'timed_window', 'up': [0], 'interval': rng.choice([0.5, 1, 2])})
         sink(1)
+    dask = None
+    if rng.random() < 0.15:
+        # dask=True: the source feeds a scatter node, the batches are read by tasks on the cluster, the user gathers
+        dl = lambda: [rng.choice([0, 0, 0.25, 0.5, 1]) for _ in range(rng.randrange(1, 4))]   # noqa
+        dask = {'task_lat': dl(), 'scatter_lat': dl(), 'gather_lat': dl()}
+        graph = [{'id': 0, 'op': 'external'}, {'id': 1, 'op': 'gather', 'up': [0]}]
+        sink(1)
+        faults.pop('fetch_fail', None)
     maxlat = max([x or 0 for x in lat] + [0])
-    sc = {'format': 1, 'family': 'kafka', 'property': 'C09', 'seed': seed, 'index': index,
+    sc = {'format': 1, 'family': 'kafka', 'property': 'C09', 'seed': seed, 'index': index, 'dask': dask,
           'partitions': nparts, 'npartitions': npartitions, 'refresh': refresh, 'reset': reset,
           'user_auto_commit': rng.choice(['true', True, 'false']) if rng.random() < 0.15 else None,
           'max_batch': rng.choice([1, 2, 3, 5, 10000]), 'keys': rng.random() < 0.2,
